@@ -5,7 +5,10 @@
        floor for both signs) whenever they do not raise;
      - multiplication by an integer, addition, subtraction and negation are exact on representations (pure linear
        combinations).
-   NOT proved in Coq: the conversion of the other operand kinds (secret int, boolean, int, float on either side), comparisons,
+   Through the model of Python's operator dispatch (C14_op_ theorems): a * b, a / b, a + b, a - b, a * k on fixed-point operands
+   and the comparisons <, <=, == between fixed-point values and < against a plain integer compare the represented numbers
+   (same positive scale on both sides) -- for all representations whenever error checking is on.
+   NOT proved in Coq: the conversion of the other operand kinds (secret int, boolean, float on either side),
    floor division / modulo on the represented numbers, powers and val(); they are decided on the real code by the differential
    check against an exact scaled-integer reference over an operator x operand-kind matrix (fixed-point, fractional and negative
    values, secret int, boolean, int, float; both orders) and random programs, and by the trace correspondence of the
@@ -13,7 +16,7 @@
 From Coq Require Import ZArith List Bool Lia Znumtheory.
 From PySnark.Base Require Import FieldZ.
 From PySnark.Model Require Import Lc Sym Good Gadgets Api Prog.
-From PySnark.Proofs Require Import Meta Wp WpBase GadgetsOK Values FxValues Complete.
+From PySnark.Proofs Require Import Meta FieldOk Wp WpBase GadgetsOK Values FxValues OpValues Complete.
 Import ListNotations.
 Open Scope Z_scope.
 
@@ -32,6 +35,41 @@ Theorem C14_linear_operations_are_exact : forall (p : Z) ins ig sg (f g : Sym.sl
   Sym.veval p ins ig sg (sval (neg f)) = - Sym.veval p ins ig sg (sval f).
 Proof. intros p ins ig sg f g k. exact (fxp_linear_exact ins ig sg f g k). Qed.
 
+(* ---- through the model of Python's operator dispatch ---- *)
+Section C14_op.
+Variable p : Z.
+Hypothesis Hp : prime p.
+Variable ins : list Z.
+Variable ig : bool.
+Variable c : cfg.
+Variables (s : @Gadgets.gst p) (sg : store).
+Hypothesis I : WpBase.Inv ins ig s sg.
+Hypothesis Chk : Sym.beval p ins ig sg (ignore s) = false.          (* error checking is on *)
+Local Notation v x := (Sym.veval p ins ig sg (sval x)).
+Local Notation b2z b := (if b then 1 else 0).
+Local Notation returns := (Values.returns ins ig).
+Local Notation isb := (OpValues.is_bool ins ig).
+Local Notation isfx := (OpValues.is_fx ins ig).
+Theorem C14_op_mul : forall o o' f g, returns (pyop c OMul (PFxp o f) (PFxp o' g)) s sg (isfx (fun r => r = (v f * v g) / Api.R c)).
+Proof. exact (op_fx_mul ins ig c s sg I). Qed.
+Theorem C14_op_truediv : forall o o' f g, returns (pyop c OTrueDiv (PFxp o f) (PFxp o' g)) s sg (isfx (fun r => r = (v f * Api.R c) / v g)).
+Proof. exact (op_fx_truediv ins ig c s sg I). Qed.
+Theorem C14_op_add : forall o o' f g, returns (pyop c OAdd (PFxp o f) (PFxp o' g)) s sg (isfx (fun r => r = v f + v g)).
+Proof. exact (op_fx_add ins ig c s sg). Qed.
+Theorem C14_op_sub : forall o o' f g, returns (pyop c OSub (PFxp o f) (PFxp o' g)) s sg (isfx (fun r => r = v f - v g)).
+Proof. exact (op_fx_sub ins ig c s sg). Qed.
+Theorem C14_op_mul_int : forall o f k, returns (pyop c OMul (PFxp o f) (PInt k)) s sg (isfx (fun r => r = v f * k)).
+Proof. exact (op_fx_mul_int ins ig c s sg). Qed.
+Theorem C14_op_lt : forall o o' f g, returns (pyop c OLt (PFxp o f) (PFxp o' g)) s sg (isb (fun r => r = b2z (v f <? v g))).
+Proof. exact (op_fx_lt ins ig c s sg I Chk). Qed.
+Theorem C14_op_le : forall o o' f g, returns (pyop c OLe (PFxp o f) (PFxp o' g)) s sg (isb (fun r => r = b2z (v f <=? v g))).
+Proof. exact (op_fx_le ins ig c s sg I Chk). Qed.
+Theorem C14_op_eq : forall o o' f g, returns (pyop c OEq (PFxp o f) (PFxp o' g)) s sg (isb (fun r => r = b2z (v f =? v g))).
+Proof. exact (op_fx_eq ins ig (field_ok_prime p Hp) c s sg I). Qed.
+Theorem C14_op_lt_int : forall o f k, returns (pyop c OLt (PFxp o f) (PInt k)) s sg (isb (fun r => r = b2z (v f <? k * Api.R c))).
+Proof. exact (op_fx_lt_int ins ig c s sg I Chk). Qed.
+End C14_op.
+
 (* non-vacuity: 2.5 * -1.75 and 2.5 / -1.75 at resolution 3 (representations 20 and -14): floor(-280/8) = -35, floor(-35*8/20) = -14 *)
 Example C14_example :
   let t := model_run (p:=65537) {| bitlength := 8%nat; resolution := 3 |}
@@ -40,4 +78,14 @@ Example C14_example :
 Proof. vm_compute. split; reflexivity. Qed.
 
 Print Assumptions C14_product.
+Print Assumptions C14_op_mul.
+Print Assumptions C14_op_truediv.
+Print Assumptions C14_op_add.
+Print Assumptions C14_op_sub.
+Print Assumptions C14_op_mul_int.
+Print Assumptions C14_op_lt.
+Print Assumptions C14_op_le.
+Print Assumptions C14_op_eq.
+Print Assumptions C14_op_lt_int.
+
 Print Assumptions C14_quotient.
